@@ -191,6 +191,14 @@ Theorem C09_session_maps_accessed_under_lock : session_maps_locked = true.
 Proof. exact session_maps_accessed_under_lock. Qed.
 Print Assumptions C09_session_maps_accessed_under_lock.
 
+(* every Lock (RLock) statement in the handler files has its Unlock on every path
+   of the function: deferred, or explicit before each return and with the same
+   state at the end of all branches (an early return or a conditional unlock leaves
+   the mutex held: the NEXT stanza that needs it parks Serve for good) *)
+Theorem C09_locks_released_on_every_path : locks_released = true.
+Proof. exact locks_released_on_every_path. Qed.
+Print Assumptions C09_locks_released_on_every_path.
+
 (* ---- all components ---- *)
 
 (* No component panics: for every component, environment (application history,
